@@ -485,6 +485,25 @@ func (e *Engine) verifyContract(ct *Contract) (x *Exec, err error) {
 			if cl.Kind == "refute" {
 				x.obls[name].Search = true
 			}
+			// vacuity guard: the situation an implication speaks about must be reachable
+			// at some return (see report.go: `#ensures[label].cover` must be SAT)
+			if ce, ok := cl.Expr.(*ast.CallExpr); ok && len(ce.Args) == 2 {
+				if id, ok := ce.Fun.(*ast.Ident); ok && id.Name == "__imp" && os.Getenv("GOVC_NO_ENS_COVERS") == "" {
+					x.specDepth++
+					a := x.evalBool(ce.Args[0], env2, r.reach)
+					x.specDepth--
+					if x.ensCover == nil {
+						x.ensCover = map[string]*ensCover{}
+					}
+					ec := x.ensCover[name]
+					if ec == nil {
+						ec = &ensCover{props: clauseProps(cl, ct), text: cl.Text}
+						x.ensCover[name] = ec
+						x.ensCoverOrder = append(x.ensCoverOrder, name)
+					}
+					ec.terms = append(ec.terms, And(r.reach, a))
+				}
+			}
 		}
 		if ct.HasAssigns {
 			x.frameObligations(ct, fn, env, entry, r)
